@@ -2,6 +2,7 @@ import FimVerif.Proofs.Lemmas.TopoAtomic
 import FimVerif.Proofs.Lemmas.TopoInvExt
 import FimVerif.Model.TopoView
 import FimVerif.Model.TopoExt
+import FimVerif.Generated.DetachProbe
 /-!
 # C07 — models built through the topology API satisfy the published rules; views are exact
 
@@ -845,5 +846,99 @@ theorem nodeAddService_topwide_counterexample :
     Inv w6 ∧ TopSvcWide w6 ∧ "nsa" ∈ svcNamesAll w6 ∧
     (nodeAddService .experiment 0 (.user "a") ⟨"nsa", none, some "OVS", none, none, [], []⟩ w6).1.toBool = true ∧
     ¬ TopSvcWide (nodeAddService .experiment 0 (.user "a") ⟨"nsa", none, some "OVS", none, none, [], []⟩ w6).2 := by decide
+
+/-! ## the catalogue sweep: every component the catalogue knows, attached, connected and removed -/
+
+inductive SweepConn where | port | child | mirror
+  deriving DecidableEq, Repr
+inductive SweepRoute where | removeComponent | removeNode | prune
+  deriving DecidableEq, Repr
+
+def sweepConns : List SweepConn := [.port, .child, .mirror]
+def sweepRoutes : List SweepRoute := [.removeComponent, .removeNode, .prune]
+
+/-- does the connection kind apply to the entry (a sub-interface needs a second, dedicated port) -/
+def SweepConn.applies (e : Rules.CatEntry) : SweepConn → Bool
+  | .child => match e.ifaces with | _ :: i :: _ => i.itype == "DedicatedPort" | _ => false
+  | _ => !e.ifaces.isEmpty
+
+/-- two nodes, a SharedNIC on the second, the entry (under `name`: its Model or one of AlsoModels) on the first, connected -/
+def sweepPre (e : Rules.CatEntry) (name : String) (k : SweepConn) : List Call :=
+  let ifn := (["d0", "d1", "d2", "d3"].take e.ifaces.length).map Nid.user
+  let p1 := match e.ifaces with | i :: _ => i.port | [] => ""
+  [ .t (.addNode .experiment 0 ⟨"n1", some (.user "n1"), some "RENC", some "VM", []⟩),
+    .t (.addNode .experiment 0 ⟨"n2", some (.user "n2"), some "UKY", some "VM", []⟩),
+    .t (.addComponent .experiment 0 (.user "n2")
+      ⟨"nic0", some (.user "c0"), some "SharedNIC", some "ConnectX-6", some (.user "c0ns"), some [.user "c0i"], some 1, []⟩),
+    .t (.addComponent .experiment 0 (.user "n1")
+      ⟨"dev1", some (.user "c1"), some e.ctype, some name, some (.user "c1ns"), some ifn, some ifn.length, []⟩) ] ++
+  match k with
+  | .port => [ .t (.addService .experiment 0 ⟨"br1", some (.user "br1"), some "L2Bridge", none, none, [],
+                  [.iface (.user "d0") ("dev1-" ++ p1), .iface (.user "c0i") "nic0-p1"]⟩) ]
+  | .child => [ .x (.addChildInterface .experiment 0 (.user "d1") [] "sub1" (some (.user "sub1")) (some "100") []
+                  [.ok "Labels" "{\"vlan\": \"100\"}"]),
+                .t (.addService .experiment 0 ⟨"br2", some (.user "br2"), some "L2Bridge", none, none, [], [.iface (.user "sub1") "sub1"]⟩) ]
+  | .mirror => [ .x (.addPortMirror .experiment 0 ⟨"pm1", some (.user "pm1"), some "PortMirror", none, none,
+                  [.ok "MirrorPort" "nic0-p1", .ok "MirrorDirection" "Both"], [.iface (.user "d0") ("dev1-" ++ p1)]⟩ true true) ]
+
+def SweepRoute.call : SweepRoute → Call
+  | .removeComponent => .t (.removeComponent (.user "n1") "dev1")
+  | .removeNode => .t (.removeNode "n1")
+  | .prune => .x (.prune [] [(.user "c1", "dev1", .user "n1")] [] [])
+
+def nSp (s : Topo) : Nat := (s.nodes.filter (fun n => n.cls == .connectionPoint && n.typ == "ServicePort")).length
+
+/-- the component's own elements: itself, its service, its ports, the sub-interface -/
+def ofDev (n : GNode) : Bool := [Nid.user "c1", .user "c1ns", .user "d0", .user "d1", .user "d2", .user "d3", .user "sub1"].contains n.nid
+
+/-- before the teardown the model satisfies InvS and holds the ServicePort of the connection; after it InvS holds, exactly that
+ServicePort is gone (with `port`, the other end's stays) and nothing of the component is left -/
+def sweepOk (e : Rules.CatEntry) (name : String) (k : SweepConn) (r : SweepRoute) : Bool :=
+  let s1 := runCalls (sweepPre e name k) Topo.empty
+  let s2 := stepCall r.call s1
+  decide (InvS s1) && s1.nodes.any ofDev && nSp s1 == (if k == .port then 2 else 1)
+  && decide (InvS s2) && nSp s2 + 1 == nSp s1 && !(s2.nodes.any ofDev)
+
+def sweepAll : Bool :=
+  Rules.catalog.all (fun e => (e.model :: e.also).all (fun name => sweepConns.all (fun k => !k.applies e ||
+    sweepRoutes.all (fun r => sweepOk e name k r))))
+
+/-- **Every component of the catalogue, under every name it can be ordered by, connected in every way that applies to it and removed
+through every route**: in the model the state before and after the teardown satisfies `InvS` ("exactly one" owner / parent / peer),
+exactly the ServicePort of the connection goes and nothing of the component is left.  `decide` over the complete regenerated
+catalogue (`Generated/Rules.lean`); the model's teardown does not look at the component's Type - that the code's does not
+either is `teardown_clean_every_catalogue_entry` below (behaviour probe) and the correspondence on the harness's catalogue sweep. -/
+theorem sweepAll_true : sweepAll = true := by decide +kernel
+
+theorem catalogue_teardown_keeps_invS (e : Rules.CatEntry) (he : e ∈ Rules.catalog) (name : String) (hn : name ∈ e.model :: e.also)
+    (k : SweepConn) (hk : k.applies e = true) (r : SweepRoute) :
+    let s1 := runCalls (sweepPre e name k) Topo.empty
+    InvS s1 ∧ InvS (stepCall r.call s1) ∧ nSp (stepCall r.call s1) + 1 = nSp s1 ∧ (stepCall r.call s1).nodes.any ofDev = false := by
+  have h := sweepAll_true
+  simp only [sweepAll, List.all_eq_true] at h
+  have hk' : k ∈ sweepConns := by cases k <;> decide
+  have hr' : r ∈ sweepRoutes := by cases r <;> decide
+  have h2 := h e he name hn k hk'
+  simp only [hk, Bool.not_true, Bool.false_or, List.all_eq_true] at h2
+  have h3 := h2 r hr'
+  simp only [sweepOk, Bool.and_eq_true, decide_eq_true_eq, beq_iff_eq, Bool.not_eq_true'] at h3
+  exact ⟨h3.1.1.1.1.1, h3.1.1.2, h3.1.2, h3.2⟩
+
+/-- non-vacuity: the rare port-bearing type is among the entries, with a dedicated second port -/
+example : ∃ e ∈ Rules.catalog, e.ctype = "FPGA" ∧ SweepConn.child.applies e = true ∧ SweepConn.mirror.applies e = true := by decide
+
+/-- the behaviour probe of the implementation (gen/detachprobe.py, regenerated every run): every row is clean, and there is a row
+for every entry of the catalogue table of gen/rules.py that has ports, under every name, for every connection kind that applies
+and every route of the API (remove_component, remove_storage, remove_node, prune) -/
+def probeConn : SweepConn → String
+  | .port => "port" | .child => "child" | .mirror => "mirror"
+
+def probeCovers : Bool :=
+  DetachProbe.table.all (fun t => t.clean) &&
+  Rules.catalog.all (fun e => (e.model :: e.also).all (fun name => sweepConns.all (fun k => !k.applies e ||
+    DetachProbe.routes.all (fun r => DetachProbe.table.any (fun t =>
+      t.route == r && t.conn == probeConn k && t.ctype == e.ctype && t.name == name && t.model == e.model)))))
+
+theorem teardown_clean_every_catalogue_entry : probeCovers = true ∧ DetachProbe.routes.length = 4 := by decide +kernel
 
 end FimVerif.C07
